@@ -1,6 +1,6 @@
 /-
 C12 — model of tetl's duration / time_point arithmetic and rounding casts
-(include/etl/_ratio/{ratio,ratio_divide}.hpp, _chrono/{duration,duration_cast,floor,ceil,round,abs,
+(include/etl/_ratio/{ratio,ratio_multiply,ratio_divide}.hpp, _chrono/{duration,duration_cast,floor,ceil,round,abs,
  time_point,time_point_cast}.hpp), integer representations.
 
 Conventions (those of the C14 model, which is reused for `gcd`, `lcm` and the integer types):
@@ -59,23 +59,47 @@ def sign (v : Int) : Int := if v < 0 then -1 else 1
 def absImpl (v : Int) : Except Err Int :=
   if v ≥ 0 then .ok v else arith imax (v * -1)
 
-/-- `ratio<Num, Denom>`:
+/-- `ratio<Num, Denom>`: `static_assert(Denom != 0)`;
     `num = sign(Num) * sign(Denom) * abs(Num) / gcd(Num, Denom)`, `den = abs(Denom) / gcd(Num, Denom)` -/
-def mkRatio (n d : Int) : Except Err Ratio := do
-  let g ← C14.gcd imax imax n d
-  let an ← absImpl n
-  let s ← arith imax (sign n * sign d)
-  let p ← arith imax (s * an)
-  let num ← cdiv imax p g
-  let ad ← absImpl d
-  let den ← cdiv imax ad g
-  .ok ⟨num, den⟩
+def mkRatio (n d : Int) : Except Err Ratio :=
+  if d == 0 then .error (.pre "ratio: static_assert(Denom != 0)")
+  else do
+    let g ← C14.gcd imax imax n d
+    let an ← absImpl n
+    let s ← arith imax (sign n * sign d)
+    let p ← arith imax (s * an)
+    let num ← cdiv imax p g
+    let ad ← absImpl d
+    let den ← cdiv imax ad g
+    .ok ⟨num, den⟩
 
-/-- `ratio_divide<R1, R2> = ratio<R1::num * R2::den, R1::den * R2::num>` -/
-def ratioDivide (r1 r2 : Ratio) : Except Err Ratio := do
-  let n ← arith imax (r1.num * r2.den)
-  let d ← arith imax (r1.den * r2.num)
-  mkRatio n d
+/-- `ratio<N, D>::type` = `ratio<num, den>`: the specialisation named by the reduced members, whose own members are
+    computed again by the same expressions -/
+def ratioType (n d : Int) : Except Err Ratio := do
+  let r ← mkRatio n d
+  mkRatio r.num r.den
+
+/-- `detail::ratio_multiply_impl<R1, R2>::type`:
+    `gcd1 = gcd(R1::num, R2::den)`, `gcd2 = gcd(R2::num, R1::den)`,
+    `ratio<(R1::num / gcd1) * (R2::num / gcd2), (R1::den / gcd2) * (R2::den / gcd1)>::type` -/
+def ratioMultiply (r1 r2 : Ratio) : Except Err Ratio := do
+  let gcd1 ← C14.gcd imax imax r1.num r2.den
+  let gcd2 ← C14.gcd imax imax r2.num r1.den
+  let a ← cdiv imax r1.num gcd1
+  let b ← cdiv imax r2.num gcd2
+  let n ← arith imax (a * b)
+  let c ← cdiv imax r1.den gcd2
+  let e ← cdiv imax r2.den gcd1
+  let d ← arith imax (c * e)
+  ratioType n d
+
+/-- `ratio_divide<R1, R2>` = `detail::ratio_divide_impl<R1, R2>::type`: `static_assert(R2::num != 0)`;
+    `ratio_multiply_impl<R1, ratio<R2::den, R2::num>>::type` -/
+def ratioDivide (r1 r2 : Ratio) : Except Err Ratio :=
+  if r2.num == 0 then .error (.pre "ratio_divide: static_assert(R2::num != 0)")
+  else do
+    let inv ← mkRatio r2.den r2.num
+    ratioMultiply r1 inv
 
 /-- a duration type: `duration<Rep, Period>`; `per` is `Period::type`, already normalised -/
 structure DurTy where
